@@ -80,3 +80,21 @@ claim('C17',
       "Up to 4 alternatives per row in the permutation exploration; everything else between the entry points and a set is deterministic by "
       "a mechanical scan (no id()/hash()/time/random), assist sorts, lint enumerates in AST / region order.",
       "contract-based deductive verification: permutation-independence obligations on the real MultiName.__init__", "DESIGN.md 3 C17")
+claim('C15',
+      "Server.process is proved to contain every Exception of an opaque request method and to report (class name, message); one arbitrary "
+      "iteration of the real Server.run loop is proved (loop cut) to send exactly one reply per request - the result or the SerializeError "
+      "fallback - and to continue after failing requests, unserialisable results and failing sends; the request methods and the client's "
+      "_call are proved transparent; with the C14 codec contracts the reply is norm(result).",
+      "Channel assumption (reliable ordered duplex); induction over the request sequence is stated; BaseException from eval payloads and OS "
+      "behaviour are outside.",
+      "contract-based deductive verification: loop-iteration contract on the real serve loop with environment choices for every callee outcome",
+      "DESIGN.md 3 C15")
+claim('C16',
+      "Thread-modular rely/guarantee proof at source-line atomicity: the real prepare()/run()/_call() are executed with every enabled "
+      "environment transition (starter finishes / fails, another thread's critical section) injected before every source line, from every "
+      "initial state: at most one launch (retry only after a failed one), no handshake exception, connected after run(); the starter's own "
+      "effects are proved to be the rely transitions; close() and the server's exit branches by sequential contracts.",
+      "Source-line atomicity of attribute accesses, Lock and Thread.join by their contracts; process launch and connection are fakes; "
+      "liveness (every call is answered, the child exits) is not expressible as a contract here.",
+      "contract-based deductive verification: rely/guarantee over a finite abstraction, all line x interference combinations explored on the real methods",
+      "DESIGN.md 3 C16")
